@@ -205,8 +205,47 @@ def _task_history(args):
     return stats, vios, None, 0
 
 
+def _task_env(args):
+    """what a payload decodes to depends on its bits and the database only, not on the process environment: the base payloads
+    of every definition with a DATE / TIME / DURATION field under time zones west and east of Greenwich"""
+    import os
+    import time as _time
+    idxs, = args
+    db = refdb.db()
+    vios = []
+    stats = {"cases": 0, "decoded": 0, "failed_ok": 0, "nontrivial": 0, "defs": 0, "unsupported_defs": 0}
+    old_tz = os.environ.get("TZ")
+    try:
+        for tz in ("PST8", "CET-1", "AOE12", "NZST-12"):
+            os.environ["TZ"] = tz
+            _time.tzset()
+            dec = NMEA2000Decoder()
+            for di in idxs:
+                d = db.defs[di]
+                for b in ("zero", "mid", "max"):
+                    p, n = payloads.build(d, payloads.base_assignment(d, b))
+                    stats["cases"] += 1
+                    stats["nontrivial"] += 1
+                    msg, err = run_lib(dec, d.pgn, p, n)
+                    if msg is not None:
+                        stats["decoded"] += 1
+                    for kind, facts, detail in compare(db, d.pgn, p, n, msg, err):
+                        if len(vios) < 40:
+                            vios.append({"kind": kind, "facts": dict(facts, mechanism="depends_on_environment", tz=tz),
+                                         "signature": f"env:{kind}:{d.pgn}:{d.id}:{facts.get('field')}",
+                                         "detail": f"[PGN {d.pgn} {d.id} base={b}, process time zone {tz}, payload={p.to_bytes(n, 'little').hex()[:60]}] {detail}",
+                                         "case": {"pgn": d.pgn, "definition": d.id, "payload_hex": p.to_bytes(n, "little").hex(), "entry": "plain", "tz": tz}})
+    finally:
+        if old_tz is None:
+            os.environ.pop("TZ", None)
+        else:
+            os.environ["TZ"] = old_tz
+        _time.tzset()
+    return stats, vios, None, 0
+
+
 def _dispatch(t):
-    return _task(t[1]) if t[0] == "enum" else _task_history(t[1])
+    return {"enum": _task, "hist": _task_history, "env": _task_env}[t[0]](t[1])
 
 
 def run(ctx):
@@ -226,6 +265,8 @@ def run(ctx):
     for i in range(0, 4):
         tasks.append(("hist", (allp[i::4], ctx.seed)))
     tasks.append(("hist", (allp[::-1], ctx.seed)))
+    timed = [d.idx for d in db.defs if any(f.type in ("DATE", "TIME", "DURATION") for f in d.fields)]
+    tasks.append(("env", (timed,)))
     results = common.pmap(_dispatch, tasks)
     vios, samples = [], []
     tot = {"cases": 0, "decoded": 0, "nontrivial": 0, "defs": 0, "unsupported_defs": 0}
@@ -244,7 +285,7 @@ def run(ctx):
                 "forced) x all deviations of <=k fields over the per-field alphabet, plus every raw of fields <=N bits; non-trivial = "
                 "at least one field deviates from its base",
         "samples": samples, "definitions": tot["defs"], "definitions_with_unsupported_field_types": tot["unsupported_defs"],
-        "decoded": tot["decoded"], "bound_completed": f"<=1 deviating field from all 5 bases, <=2 deviating fields from base {'mid and ones' if k == 2 else 'mid'}, every raw of fields <= {narrow} bits",
+        "decoded": tot["decoded"], "bound_completed": f"<=1 deviating field from all 5 bases, <=2 deviating fields from base {'mid and ones' if k == 2 else 'mid'}, every raw of fields <= {narrow} bits; definitions with date / time fields again under 4 process time zones",
         "exhaustive": True,
     }
     return {"coverage": cov, "violations": vios,
@@ -258,5 +299,20 @@ def replay(ctx, rep):
     db = refdb.db()
     data = bytes.fromhex(c["payload_hex"])
     p = int.from_bytes(data, "little")
+    if c.get("tz"):
+        import os
+        import time as _time
+        old = os.environ.get("TZ")
+        os.environ["TZ"] = c["tz"]
+        _time.tzset()
+        try:
+            msg, err = run_lib(NMEA2000Decoder(), c["pgn"], p, len(data), c.get("entry", "plain"))
+            return [{"kind": k, "facts": f, "detail": d, "case": c} for k, f, d in compare(db, c["pgn"], p, len(data), msg, err)]
+        finally:
+            if old is None:
+                os.environ.pop("TZ", None)
+            else:
+                os.environ["TZ"] = old
+            _time.tzset()
     msg, err = run_lib(NMEA2000Decoder(), c["pgn"], p, len(data), c.get("entry", "plain"))
     return [{"kind": k, "facts": f, "detail": d, "case": c} for k, f, d in compare(db, c["pgn"], p, len(data), msg, err)]
